@@ -452,5 +452,13 @@ def rule_l10(repo):
     return res
 
 
+def rule_l11(repo):
+    """Printing, parsing and type inference read the declarations of the current context, the theory and the printer settings
+    from process-wide variables that `with fresh_context(..)`, `fresh_theory()`, `global_setting(..)` set for the extent of a
+    block: sa/persist.scoped_state_rule."""
+    from ..persist import scoped_state_rule
+    return scoped_state_rule(repo, 'C12.L11')
+
+
 def rules(repo):
-    return [rule_l1(repo), rule_l2(repo), rule_l3(repo), rule_l4(repo), rule_l5(repo), rule_l6(repo), rule_l7(repo), rule_l8(repo), rule_l9(repo), rule_l10(repo)]
+    return [rule_l1(repo), rule_l2(repo), rule_l3(repo), rule_l4(repo), rule_l5(repo), rule_l6(repo), rule_l7(repo), rule_l8(repo), rule_l9(repo), rule_l10(repo), rule_l11(repo)]
